@@ -478,9 +478,12 @@ def step? (c : Cfg α) (s : State α) : Ev α → Option (State α)
       some { s with nested := [], cur := [], ppc := .push (.buf (s.nested ++ [s.cur])) .run }
     else none
   | .pRunEnd =>
-    -- run() returns: all input used and flushed, or nothing is wanted and the header is known
+    -- run() returns: all input used and flushed, or nothing is wanted and the header is known, or (PBF,
+    -- pbf_input_format.hpp parse_data_blobs: `while (output_queue_in_use())`, an unlocked read of the
+    -- osmdata queue's m_in_use) the consumer has shut the osmdata queue down
     if s.ppc = .run ∧ s.hdr ≠ none ∧ s.cur = [] ∧
-        ((s.inputDone = true ∧ s.next = s.avail ∧ c.parseFault ≠ some s.next) ∨ c.nothing = true) then
+        ((s.inputDone = true ∧ s.next = s.avail ∧ c.parseFault ≠ some s.next) ∨ c.nothing = true
+          ∨ (c.pbf = true ∧ s.outq.inUse = false)) then
       some { s with ppc := .push .eod .dtor }
     else none
   | .pBlob split =>
